@@ -77,4 +77,16 @@ let () =
        let has_left = not (BinInt.Z.eqb en.Enum.en_leftover Z0) in
        let ks = list_of_sexp (key_of_sexp has_left) ks in
        "(ok " ^ Stdlib.String.concat " " (Stdlib.List.map (decode_one fb en) ks) ^ ")")
+    | _ -> "!args");
+  (* executable statements of the theorems of Properties/C04-C06 on one flat record:
+     fragment? keys sound injective complete count-exact *)
+  register "rg_thm" (function [f; mx] ->
+    let fb = Wire_flat.flat_of_sexp f in
+    let mx = int_of_sexp mx in
+    if not (Frag.frag0 fb) then "(outside)"
+    else
+      let n = Stdlib.List.length (FragSem.keys_of fb) in
+      if n > mx then "(big " ^ string_of_int n ^ ")"
+      else "(frag0 " ^ string_of_int n ^ " " ^ show_bool (FragSem.check_sound fb) ^ " " ^ show_bool (FragSem.check_inj fb) ^ " "
+           ^ show_bool (FragSem.check_complete fb) ^ " " ^ show_bool (FragSem.check_count fb) ^ ")"
     | _ -> "!args")
